@@ -76,27 +76,20 @@ theorem parseNumber_natDigits (pos : Bool) (n : Nat) {rest : List Char} (h : Fol
   have hscan : scanDigits 0 0 (natDigits n ++ rest) = (n, (natDigits n).length, rest) := by
     rw [scan_natDigits, scan_stop h]; simp
   have e' : natDigits n ++ rest = c :: (tl ++ rest) := by rw [e]; rfl
-  have hz' : (c = '0' && (match tl ++ rest with | d :: _ => isDigit d | [] => false)) = false := by
-    by_cases hc : c = '0'
-    · have hn := hz hc
-      subst hn
-      rw [natDigits_zero] at e
-      injection e with _ e2
-      subst e2
-      cases rest with
-      | nil => simp
-      | cons c2 r => simp [(h c2 r rfl).1]
-    · simp [hc]
   rw [e']
   unfold parseNumber
   simp only [hd, Bool.not_true, Bool.false_eq_true, if_false]
   rw [← e', hscan]
-  simp only [Bool.and_eq_true, decide_eq_true_eq]
-  rw [if_neg]
-  intro ⟨hc, hm⟩
-  simp only [hc, decide_true, Bool.true_and] at hz'
-  rw [hm] at hz'
-  cases hz'
+  by_cases hc : c = '0'
+  · have hn := hz hc
+    subst hn
+    rw [natDigits_zero] at e
+    injection e with _ e2
+    subst e2
+    cases rest with
+    | nil => simp
+    | cons c2 r => simp [(h c2 r rfl).1]
+  · simp [hc]
 
 theorem isDigit_not_ws {c : Char} (h : isDigit c = true) : isWs c = false ∧ c ≠ '-' := by
   refine ⟨?_, ?_⟩
@@ -376,5 +369,221 @@ theorem parseMembers_pr : ∀ (es : List (Str × T)) (f d : Nat) (first : Bool) 
       unfold parseMembers
       simp [skipWs, isWs, hkey, ihx, ihes]
 end
+
+/-! ### the budget of `parse` suffices -/
+
+theorem prInt_length_pos (i : Int) : 0 < (prInt i).length := by
+  obtain ⟨c, tl, e, _⟩ := prInt_starts i
+  rw [e]; simp
+
+mutual
+theorem cost_le {d : Nat} : ∀ (t : T), Good d t → cost t + 1 ≤ 2 * (pr t).length
+  | .null, _ => by simp [cost, pr]
+  | .bool true, _ => by simp [cost, pr]
+  | .bool false, _ => by simp [cost, pr]
+  | .int i, _ => by have := prInt_length_pos i; simp [cost, pr]; omega
+  | .float _, h => by simp [Good] at h
+  | .str s, _ => by simp [cost, pr, prStr]; omega
+  | .arr xs, h => by
+    have h' : 1 < d ∧ GoodL (d - 1) xs := by simpa [Good] using h
+    have := costL_le true xs h'.2
+    simp [cost, pr]; omega
+  | .obj es, h => by
+    have h' : 1 < d ∧ GoodE (d - 1) es := by simpa [Good] using h
+    have := costE_le true es h'.2
+    simp [cost, pr]; omega
+theorem costL_le {d : Nat} (first : Bool) : ∀ (xs : List T), GoodL d xs →
+    costL xs ≤ 2 * (prElems first xs).length
+  | [], _ => by simp [costL, prElems]
+  | x :: xs, h => by
+    have h' : Good d x ∧ GoodL d xs := by simpa [GoodL] using h
+    have h1 := cost_le x h'.1
+    have h2 := costL_le false xs h'.2
+    simp [costL, prElems]; omega
+theorem costE_le {d : Nat} (first : Bool) : ∀ (es : List (Str × T)), GoodE d es →
+    costE es ≤ 2 * (prMembers first es).length
+  | [], _ => by simp [costE, prMembers]
+  | (k, x) :: es, h => by
+    have h' : Good d x ∧ GoodE d es := by simpa [GoodE] using h
+    have h1 := cost_le x h'.1
+    have h2 := costE_le false es h'.2
+    simp [costE, prMembers]; omega
+end
+
+theorem parse_pr (t : T) (h : Good 128 t) : parse (pr t) = .ok (t, []) := by
+  have hc := cost_le t h
+  have := parseV_pr t (2 * (pr t).length + 2) 128 [] h (by omega) Fol_nil
+  simpa [parse] using this
+
+theorem pr_injective {t₁ t₂ : T} (h₁ : Good 128 t₁) (h₂ : Good 128 t₂) (h : pr t₁ = pr t₂) :
+    t₁ = t₂ := by
+  have e₁ := parse_pr t₁ h₁
+  have e₂ := parse_pr t₂ h₂
+  rw [h, e₂] at e₁
+  injection e₁ with e
+  injection e with e _
+  exact e.symm
+
+/-! ### `Ord String` is lawful -/
+
+theorem toNat_inj {a b : Char} (h : a.toNat = b.toNat) : a = b := by
+  rw [← Char.ofNat_toNat a, ← Char.ofNat_toNat b, h]
+
+theorem scmp_lawful : LawfulCmp scmp := by
+  refine ⟨?_, ?_, ?_⟩
+  · intro a
+    induction a with
+    | nil => intro b; cases b <;> simp [scmp]
+    | cons x xs ih =>
+      intro b
+      cases b with
+      | nil => simp [scmp]
+      | cons y ys =>
+        simp only [scmp]
+        split
+        · next h => simp; intro e; subst e; omega
+        · split
+          · next h1 h2 => subst h2; simp [ih]
+          · next h1 h2 => simp [h2]
+  · intro a
+    induction a with
+    | nil => intro b; cases b <;> simp [scmp]
+    | cons x xs ih =>
+      intro b
+      cases b with
+      | nil => simp [scmp]
+      | cons y ys =>
+        simp only [scmp]
+        by_cases h1 : x.toNat < y.toNat
+        · have h2 : ¬ y.toNat < x.toNat := by omega
+          have h3 : ¬ y = x := by intro e; subst e; omega
+          simp [h1, h2, h3]
+        · by_cases h2 : x = y
+          · subst h2; simp [ih]
+          · have h3 : y.toNat < x.toNat := by
+              have : x.toNat ≠ y.toNat := fun e => h2 (toNat_inj e)
+              omega
+            simp [h1, h2, h3]
+  · intro a
+    induction a with
+    | nil =>
+      intro b c
+      cases b <;> cases c <;> simp [scmp]
+    | cons x xs ih =>
+      intro b c
+      cases b with
+      | nil => simp [scmp]
+      | cons y ys =>
+        cases c with
+        | nil => simp [scmp]; repeat' split <;> simp
+        | cons z zs =>
+          simp only [scmp]
+          by_cases h1 : x.toNat < y.toNat
+          · by_cases h2 : y.toNat < z.toNat
+            · have : x.toNat < z.toNat := by omega
+              simp [this]
+            · by_cases h3 : y = z
+              · subst h3; simp [h1]
+              · simp [h2, h3]
+          · by_cases h2 : x = y
+            · subst h2
+              by_cases h3 : x.toNat < z.toNat
+              · simp [h3]
+              · by_cases h4 : x = z
+                · subst h4; simpa using ih ys zs
+                · simp [h3, h4]
+            · simp [h1, h2]
+
+/-! ### the keys of an object are the in-order traversal of its tree -/
+
+section keys
+variable {V W : Type}
+
+theorem all_iff_preorder {p : Str → Prop} : ∀ {m : Map Str V}, All p m ↔ ∀ x ∈ preorder m, p x.1
+  | .tip => by simp [All, preorder]
+  | .bin k v l r => by
+    simp only [All, preorder, List.mem_cons, List.mem_append, all_iff_preorder (m := l),
+      all_iff_preorder (m := r)]
+    constructor
+    · rintro ⟨a, b, c⟩ x (h | h | h)
+      · subst h; exact a
+      · exact b x h
+      · exact c x h
+    · intro h
+      exact ⟨h (k, v) (Or.inl rfl), fun x hx => h x (Or.inr (Or.inl hx)), fun x hx => h x (Or.inr (Or.inr hx))⟩
+
+def ins (m : Map Str V) (e : Str × V) : Map Str V := insert scmp e.1 e.2 m
+
+theorem foldl_ins_lt (k : Str) (v : V) (R : Map Str V) : ∀ (es : List (Str × V)) (L : Map Str V),
+    (∀ e ∈ es, scmp e.1 k = .lt) → es.foldl ins (.bin k v L R) = .bin k v (es.foldl ins L) R
+  | [], _, _ => rfl
+  | e :: es, L, h => by
+    have h1 := h e (List.mem_cons_self ..)
+    simp only [List.foldl_cons]
+    rw [show ins (.bin k v L R) e = .bin k v (ins L e) R by simp [ins, StdMap.insert, h1]]
+    exact foldl_ins_lt k v R es _ (fun x hx => h x (List.mem_cons_of_mem _ hx))
+
+theorem foldl_ins_gt (k : Str) (v : V) (L : Map Str V) : ∀ (es : List (Str × V)) (R : Map Str V),
+    (∀ e ∈ es, scmp k e.1 = .lt) → es.foldl ins (.bin k v L R) = .bin k v L (es.foldl ins R)
+  | [], _, _ => rfl
+  | e :: es, R, h => by
+    have h1 : scmp e.1 k = .gt := (scmp_lawful.gt_iff _ _).2 (h e (List.mem_cons_self ..))
+    simp only [List.foldl_cons]
+    rw [show ins (.bin k v L R) e = .bin k v L (ins R e) by simp [ins, StdMap.insert, h1]]
+    exact foldl_ins_gt k v L es _ (fun x hx => h x (List.mem_cons_of_mem _ hx))
+
+/-- inserting the entries of a search tree in pre-order rebuilds the same tree -/
+theorem rebuild : ∀ {m : Map Str V}, Ordered scmp m → (preorder m).foldl ins .tip = m
+  | .tip, _ => rfl
+  | .bin k v l r, ⟨a, b, c, d⟩ => by
+    simp only [preorder, List.foldl_cons, List.foldl_append]
+    rw [show ins (.tip : Map Str V) (k, v) = .bin k v .tip .tip by simp [ins, StdMap.insert]]
+    rw [foldl_ins_lt k v .tip _ _ (all_iff_preorder.1 a), rebuild c,
+      foldl_ins_gt k v l _ _ (all_iff_preorder.1 b), rebuild d]
+
+theorem insAll_toList : ∀ (es : List (Str × V)) {m : Map Str V}, Ordered scmp m →
+    insAll es (toList m) = toList (es.foldl ins m)
+  | [], _, _ => rfl
+  | e :: es, m, h => by
+    simp only [insAll, List.foldl_cons]
+    rw [← toList_insert scmp_lawful e.1 e.2 h]
+    exact insAll_toList es (insert_ordered scmp_lawful e.1 e.2 h)
+
+theorem insAll_preorder {m : Map Str V} (h : Ordered scmp m) : insAll (preorder m) [] = toList m := by
+  have := insAll_toList (preorder m) (m := .tip) trivial
+  rw [toList_tip] at this
+  rw [this, rebuild h]
+
+theorem all_map {p : Str → Prop} (g : V → W) : ∀ {m : Map Str V}, All p (StdMap.map g m) ↔ All p m
+  | .tip => by simp [StdMap.map, All]
+  | .bin k v l r => by simp [StdMap.map, All, all_map g (m := l), all_map g (m := r)]
+
+theorem ordered_map (g : V → W) : ∀ {m : Map Str V}, Ordered scmp m → Ordered scmp (StdMap.map g m)
+  | .tip, _ => trivial
+  | .bin _ _ _ _, ⟨a, b, c, d⟩ =>
+    ⟨(all_map g).2 a, (all_map g).2 b, ordered_map g c, ordered_map g d⟩
+
+theorem preorder_map (g : V → W) : ∀ (m : Map Str V),
+    preorder (StdMap.map g m) = (preorder m).map (fun kv => (kv.1, g kv.2))
+  | .tip => rfl
+  | .bin k v l r => by simp [StdMap.map, preorder, preorder_map g l, preorder_map g r]
+
+theorem toList_map (g : V → W) : ∀ (m : Map Str V),
+    toList (StdMap.map g m) = (toList m).map (fun kv => (kv.1, g kv.2))
+  | .tip => by simp [StdMap.map, toList_tip]
+  | .bin k v l r => by simp [StdMap.map, toList_bin, toList_map g l, toList_map g r]
+
+end keys
+
+theorem toTM_eq : ∀ (m : Map Str JVal) (acc : List (Str × T)),
+    toTM m acc = insAll ((preorder m).map (fun kv => (kv.1, toT kv.2))) acc
+  | .tip, acc => by simp [toTM, preorder, insAll]
+  | .bin k v l r, acc => by
+    rw [toTM, toTM_eq r, toTM_eq l]
+    simp [preorder, insAll, List.foldl_append]
+
+theorem toT_obj_ordered {m : Map Str JVal} (h : Ordered scmp m) :
+    toT (.obj m) = .obj ((toList m).map (fun kv => (kv.1, toT kv.2))) := by
+  rw [toT, toTM_eq, ← preorder_map, insAll_preorder (ordered_map toT h), toList_map]
 
 end GluonModel.StdJsonText
